@@ -318,6 +318,24 @@ def all_obligations():
          functions=['xwrite'], enforce='xwrite', replace=['write'], loop_contracts=True, flags=['--unwind', '20'],
          expect=[r'xwrite\.postcondition', r'write\.precondition', 'loop_invariant_step', 'loop_decreases'],
          assumed=POSIX_RW))
+    # ---------------- static storage (supporting static fact for C12 / C03): what can be written at run time without a lock
+    GUARD_MAP = {
+        'src/process.c': 'source_mutex,source_cond,sink_mutex,sink_cond,sched_mutex,sched_cond,process,eof,work_units,in_slots,out_slots,total_in_slots,total_out_slots,in_granul,out_granul,'
+                         'request_close,source_thread,sink_thread,worker_thread,output_q,finish,thread_id,next_task,source_thread_entry,sink_thread_entry,worker_thread_entry,primary_thread_entry',
+        'src/compress.c': 'coll_q,trans_q,reord_q,order,next_id,combined_crc,collect_token,unfinished_work',
+        'src/expand.c': 'input_q,head_offs,tail_offs,eof_missing,retr_q,emit_q,order_q,unord_q,parse_token,parsing_done,scan_q,reord_offs,parser_bs,par,reord_q',
+    }
+    A(Ob(name='static_storage.codec', props=['C12', 'C03', 'C09'], kind='lemma', harness='__symtab__', entry='-', extra_srcs=['src/encode.c', 'src/decode.c', 'src/divbwt.c', 'src/parse.c'],
+         what='the codec translation units (run concurrently by all workers without any lock) define NO mutable object of static storage duration: no file-scope variable, no function-local static; '
+              'all their tables are const',
+         functions=['encode.c', 'decode.c', 'divbwt.c', 'parse.c (symbol tables)'], defines={'ALLOW': ''},
+         assumed=['goto-cc symbol table: static lifetime + const qualification as computed by the C front end']))
+    for tu, allow in GUARD_MAP.items():
+        A(Ob(name='static_storage.' + os.path.basename(tu)[:-2], props=['C12'], kind='lemma', harness='__symtab__', entry='-', extra_srcs=[tu], defines={'ALLOW': allow},
+             what='every mutable object of static storage duration in ' + tu + ' is one of the variables of the guard map (each is accessed under its monitor or in a single-threaded phase, '
+                  'see the monitor harnesses); in particular there is no function-local static',
+             functions=[os.path.basename(tu) + ' (symbol table)'], assumed=['goto-cc symbol table: static lifetime + const qualification as computed by the C front end']))
+
     # ---------------- process.c thread procedures and callbacks (three monitors; one generic loop iteration each)
     PM = ['pthread mutex/condition primitives: sequential monitor model (lock = havoc of the protected state subject to the monitor invariant; wait = unlock + lock)',
           'monitor invariants: source: free + held + queued input slots == total; sink: queue length + not-yet-pushed slot holders <= capacity; scheduler: next_task is empty or ready',
